@@ -32,7 +32,10 @@ func tagOf(a []int) uint32 {
 
 // runC17: Registry(schema) computed by TLC must equal the generated meta/factory.
 func runC17(c *core.Ctx) error {
-	for _, cp := range corporaFor(c) {
+	// "alphabet": an item in a namespace of every initial letter, generated with --split-internal
+	// (the generator spreads meta and factory over per-letter files in that mode)
+	cps := append(corporaFor(c), Corpus{Name: "alphabet-split", Files: []string{probe("alphabet.tl")}, TL2: "", Sanity: true, Split: true})
+	for _, cp := range cps {
 		b, err := Build(c, cp)
 		if err != nil {
 			return err
